@@ -187,6 +187,96 @@ func runC07(p *core.Prog, r *core.Report) {
 		r.Check(okStore, "C07.R1", "GetExecutionPlan/store-skip", "a store is left out of the job only if its full snapshot or its partial for this range exists; otherwise it is required and scheduled for writing", fmt.Sprintf("stores-to-write sites=%d, absent edges=%d", len(stw), len(absentEdges)), p.Pos(fn.Pos()))
 	})
 
+	r.Guard("C07.R1", "processRange/all-excluded", "segment shortcut", func() {
+		fn := p.Func(pkgSvc, "Tier2Service.processRange")
+		r.Touch(core.FuncName(fn))
+		ep := p.Named(pkgSvc, "ExecutionPlan")
+		existing, toWrite := core.FieldOf(ep, "ExistingExecOuts"), core.FieldOf(ep, "StoresToWrite")
+		excl := core.FindInstrs(fn, func(in ssa.Instruction) bool {
+			c := core.CalleeOf(in)
+			return c != nil && c.Name() == "ExcludesAllBlocks"
+		})
+		if len(excl) != 1 {
+			core.Undecide("processRange: expected one ExcludesAllBlocks call, found %d", len(excl))
+		}
+		var loop *core.Loop
+		for _, l := range core.Loops(fn) {
+			if l.Body[excl[0].Block()] && (loop == nil || len(l.Body) < len(loop.Body)) {
+				loop = l
+			}
+		}
+		if loop == nil {
+			core.Undecide("processRange: executor loop not found")
+		}
+		// the store case: success edge of the *StoreModuleExecutor type assertion
+		var entry *ssa.BasicBlock
+		core.Instrs(fn, func(in ssa.Instruction) {
+			ta, ok := in.(*ssa.TypeAssert)
+			if !ok || !ta.CommaOk || typeName(ta.AssertedType) != "*StoreModuleExecutor" || !loop.Body[ta.Block()] {
+				return
+			}
+			for _, ref := range *ta.Referrers() {
+				if ex, ok := ref.(*ssa.Extract); ok && ex.Index == 1 {
+					for _, rr := range *ex.Referrers() {
+						if ifi, ok := rr.(*ssa.If); ok {
+							entry = ifi.Block().Succs[0]
+						}
+					}
+				}
+			}
+		})
+		if entry == nil {
+			core.Undecide("processRange: store executor case not found")
+		}
+		// edges: cached output present; store not to be written
+		var cachedEdges, notWrittenEdges []core.Edge
+		core.Instrs(fn, func(in ssa.Instruction) {
+			ifi, ok := in.(*ssa.If)
+			if !ok || !loop.Body[ifi.Block()] {
+				return
+			}
+			c, neg := core.StripNot(ifi.Cond)
+			if bo, ok := c.(*ssa.BinOp); ok && (bo.Op == token.NEQ || bo.Op == token.EQL) {
+				if lk, ok := bo.X.(*ssa.Lookup); ok {
+					if f, _ := core.LoadedField(lk.X); f == existing {
+						if k, ok := bo.Y.(*ssa.Const); ok && k.IsNil() {
+							idx := 0
+							if (bo.Op == token.EQL) != neg {
+								idx = 1
+							}
+							cachedEdges = append(cachedEdges, core.Edge{From: ifi.Block(), Idx: idx})
+						}
+					}
+				}
+			}
+			if ex, ok := c.(*ssa.Extract); ok && ex.Index == 1 {
+				if lk, ok := ex.Tuple.(*ssa.Lookup); ok {
+					if f, _ := core.LoadedField(lk.X); f == toWrite {
+						idx := 1 // found == false
+						if neg {
+							idx = 0
+						}
+						notWrittenEdges = append(notWrittenEdges, core.Edge{From: ifi.Block(), Idx: idx})
+					}
+				}
+			}
+		})
+		header := loop.Header.Instrs[0]
+		ignoredWithout := func(edges []core.Edge) bool {
+			// can the store executor be ignored (next executor reached without the ExcludesAllBlocks test) without taking one of the edges?
+			q := core.PathQuery{Fn: fn, CutEdge: func(e core.Edge) bool { return containsEdge(edges, e) }, CutInstr: func(x ssa.Instruction) bool { return x == excl[0] }}
+			if entry.Instrs[0] == excl[0] {
+				return false
+			}
+			_, reach := q.CanReach(entry.Instrs[0], func(x ssa.Instruction) bool { return x == header || loopLatch(loop, x) })
+			return reach
+		}
+		okCached := len(cachedEdges) > 0 && !ignoredWithout(filterEdgesFrom(cachedEdges, entry, fn))
+		okWrite := len(notWrittenEdges) > 0 && !ignoredWithout(notWrittenEdges)
+		r.Check(okCached, "C07.R1", "processRange/all-excluded/store-cached", "for the `everything is excluded by block indexes` shortcut a store executor is ignored only if its outputs are cached", "a store without cached outputs can be ignored", p.Pos(excl[0].Pos()))
+		r.Check(okWrite, "C07.R1", "processRange/all-excluded/store-written", "a store whose snapshot still has to be written for this segment is never ignored by the shortcut (its cached operations must be replayed before the snapshot is saved)", "a store in StoresToWrite can be ignored by the shortcut", p.Pos(excl[0].Pos()))
+	})
+
 	// ------------------------------------------------------------------ R2
 	r.Guard("C07.R2", "FetchStoresState", "units marked from storage", func() {
 		fn := p.Func(pkgStage, "Stages.FetchStoresState")
@@ -660,4 +750,29 @@ func errorForwarded(c *ssa.Call) bool {
 		}
 	}
 	return false
+}
+
+// loopLatch: the instruction is the first of a block that jumps back to the loop header from inside the loop.
+func loopLatch(l *core.Loop, x ssa.Instruction) bool {
+	b := x.Block()
+	if !l.Body[b] || b.Instrs[0] != x {
+		return false
+	}
+	for _, s := range b.Succs {
+		if s == l.Header && len(b.Instrs) == 1 {
+			return true
+		}
+	}
+	return false
+}
+
+// filterEdgesFrom keeps the edges located in blocks reachable from the entry block (the case clause).
+func filterEdgesFrom(es []core.Edge, entry *ssa.BasicBlock, fn *ssa.Function) []core.Edge {
+	var out []core.Edge
+	for _, e := range es {
+		if e.From == entry || reachFromBlock(fn, entry, e.From.Instrs[0]) {
+			out = append(out, e)
+		}
+	}
+	return out
 }
